@@ -35,6 +35,7 @@ Expected(e) ==
     [] e.fn = "cross"    -> Cross(e.a, e.b)
     [] e.fn = "ad"       -> FlatM(adS(e.a))
     [] e.fn = "Ad"       -> FlatM(AdNum(Mot(e)))                       \* times AdDen = N d
+    [] e.fn = "Ad2"      -> IF Planar(Mot(e)) THEN FlatM(Ad2Num(Mot(e))) ELSE << >>    \* times AdDen = N d
     [] e.fn = "jac"      -> FlatM(JacNum(Mot(e)))                      \* times N
     [] e.fn = "jac_same" -> LET m == Mot(e)  mi == Inv(m)  k == (QN(m.q) * QN(m.q) * m.d) \div AdDen(mi)
                             IN FlatM(MScale(k, AdNum(mi)))             \* times N^2 d
